@@ -28,6 +28,8 @@ type Prog struct {
 	ID      string `json:"id"`
 	Src     string `json:"src"`
 	Pre     string `json:"pre"`     // run to completion first, in the same environment, by a plain vm.Execute (another run, another context)
+	Copies  int    `json:"copies"`  // > 1: that many calls of the same source, each in its own environment, under ONE context, sharing the host channel "cq" (capacity 1)
+	Feed    string `json:"feed"`    // with copies: the host "drain"s or "fill"s the shared channel for a few milliseconds, then stops; then the context is cancelled
 	Threads int    `json:"threads"` // script goroutines that may log one more effect before they observe
 }
 
@@ -93,7 +95,68 @@ var bigMap = func() map[interface{}]interface{} {
 	return m
 }()
 
+// shared: several calls under one context contending for one buffered host channel; every one of them must return.
+func shared(p Prog, k int) Obs {
+	ctx, cancel := context.WithCancel(context.Background())
+	defer cancel()
+	cq := make(chan int64, 1)
+	done := make(chan error, p.Copies)
+	for i := 0; i < p.Copies; i++ {
+		e := env.NewEnv()
+		e.Define("cq", cq)
+		go func() {
+			defer func() {
+				if x := recover(); x != nil {
+					done <- fmt.Errorf("PANIC: %v", x)
+				}
+			}()
+			_, err := vm.ExecuteContext(ctx, e, nil, p.Src)
+			done <- err
+		}()
+	}
+	stop := time.After(time.Duration(2+k%3) * time.Millisecond)
+feed:
+	for {
+		if p.Feed == "drain" {
+			select {
+			case <-cq:
+			case <-stop:
+				break feed
+			}
+		} else {
+			select {
+			case cq <- 1:
+			case <-stop:
+				break feed
+			}
+		}
+	}
+	time.Sleep(time.Millisecond)
+	t0 := time.Now()
+	cancel()
+	o := Obs{ID: p.ID, Gate: k, Delivered: true, Returned: true, ErrOK: true, GateKind: "external-shared", Allowed: p.Copies}
+	deadline := time.After(limit)
+	for i := 0; i < p.Copies; i++ {
+		select {
+		case err := <-done:
+			if err == nil || err.Error() != "execution interrupted" {
+				o.ErrOK = false
+				o.Err = fmt.Sprint(err)
+			}
+		case <-deadline:
+			o.Returned = false
+			o.Err = fmt.Sprintf("%d of %d calls sharing the context did not return", p.Copies-i, p.Copies)
+			return o
+		}
+	}
+	o.LatencyMs = float64(time.Since(t0).Microseconds()) / 1000
+	return o
+}
+
 func one(p Prog, k int) Obs {
+	if p.Copies > 1 {
+		return shared(p, k)
+	}
 	ctx, cancel := context.WithCancel(context.Background())
 	r := &run{k: int64(k), cancel: cancel}
 	if k < 0 {
